@@ -7,6 +7,9 @@ Import ListNotations.
 From RV Require Import Lib.Str.
 
 Inductive wcond := WAlways | WIfNotNone | WOther.
+(* how __hash__ uses an attribute: as it is, as a tuple of the list it holds, as the sorted tuple of the items of the
+   map it holds, as the items in insertion order *)
+Inductive hkind := HPlain | HTuple | HSortedItems | HItems.
 Inductive rkind := RRequired | ROptional | ROther.
 Record fentry := { f_name : str; f_wkey : option str; f_wcond : wcond; f_rkey : option str; f_rkind : rkind }.
 Definition tbl := list fentry.
@@ -55,3 +58,9 @@ Fixpoint nodup_strs (l : list str) : bool :=
 Definition keys_of (t : tbl) : list str := flat_map (fun e => match f_wkey e with Some k => [k] | None => [] end) t.
 Definition tbl_ok (t : tbl) : bool :=
   forallb entry_ok t && nodup_strs (keys_of t) && nodup_strs (map f_name t).
+
+(* what "equal objects have equal hashes" needs of a class: every hashed attribute is compared by __eq__, and a map
+   is hashed through its sorted items (dicts compare without regard to insertion order) *)
+Definition hash_entry_ok (eqa : list str) (p : str * hkind) : bool :=
+  existsb (str_eqb (fst p)) eqa && match snd p with HItems => false | _ => true end.
+Definition hash_ok (c : list str * list (str * hkind)) : bool := forallb (hash_entry_ok (fst c)) (snd c).
